@@ -599,3 +599,9 @@ impl<K, V, A: Allocator> CaoHashMap<K, V, A> {
 pub fn verif_hash<T: ?Sized + Hash>(t: &T) -> u64 {
     hash(t)
 }
+
+/// The load factor above which the map grows (`verif-hooks` feature only)
+#[cfg(feature = "verif-hooks")]
+pub fn verif_max_load() -> f32 {
+    MAX_LOAD
+}
